@@ -196,7 +196,17 @@ func c09Eval(s *vh.Session, c c09Case) (string, string) {
 			} else {
 				raw, _ := os.ReadFile(p)
 				lines := strings.Split(string(raw), "\n")
-				_ = os.WriteFile(p, []byte(strings.Join(lines[:4], "\n")+"\n\nfunc {{{ broken\n"), 0o644)
+				switch (st.Arg / len(files)) % 3 {
+				case 0:
+					// header kept, body replaced by something that does not parse
+					_ = os.WriteFile(p, []byte(strings.Join(lines[:4], "\n")+"\n\nfunc {{{ broken\n"), 0o644)
+				case 1:
+					// complete previous output with a broken tail (e.g. a merge leftover)
+					_ = os.WriteFile(p, append(raw, []byte("\n>>>>>>> theirs\n")...), 0o644)
+				default:
+					// complete previous output plus a declaration the current input no longer yields
+					_ = os.WriteFile(p, append(raw, []byte("\nfunc staleLeftover() {}\n")...), 0o644)
+				}
 			}
 			if ref.Exit != 0 {
 				// a failing run does not repair outputs; compare diagnostics only
